@@ -207,6 +207,14 @@ class Primitive(object):
     def format(self, *args):
         return self.seq.format(*args)
 
+    def __getstate__(self):
+        # A class defining __slots__ needs an explicit __getstate__ to be
+        # picklable with protocols 0 and 1. The state has the default form
+        # (instance dictionary or None, dictionary of the slots).
+        slots = dict((slot, getattr(self, slot)) for slot in self.__slots__
+                     if hasattr(self, slot))
+        return getattr(self, "__dict__", None) or None, slots
+
     def __eq__(self, other):
         if type(self) is type(other):
             return all(getattr(self, slot) == getattr(other, slot)
@@ -233,6 +241,14 @@ class Terminal(object):
 
     def format(self):
         return self.conv_fct(self.value)
+
+    def __getstate__(self):
+        # A class defining __slots__ needs an explicit __getstate__ to be
+        # picklable with protocols 0 and 1. The state has the default form
+        # (instance dictionary or None, dictionary of the slots).
+        slots = dict((slot, getattr(self, slot)) for slot in self.__slots__
+                     if hasattr(self, slot))
+        return getattr(self, "__dict__", None) or None, slots
 
     def __eq__(self, other):
         if type(self) is type(other):
